@@ -4,7 +4,7 @@
 //! take/enumerate/filter_map/fold) is outside Verus's reach; the Verus units ASSUME the contract
 //! `compressed_post` for it (units/frag/writer_compress_assumed.vrs).  The harnesses below check
 //! that contract on the REAL code through the public API, BOUNDED:
-//!   * buffer of 64 octets;
+//!   * buffer of 40 octets;
 //!   * prior names: the QNAME (bnd_write_compressed_owner_*), or the QNAME plus the owner of a
 //!     first record (bnd_write_compressed_two_priors): at most 2 prior names;
 //!   * every symbolic name has at most MAXL non-null labels of at most MAXO octets
@@ -26,10 +26,10 @@ use crate::rr::{Rdata, Ttl, Type};
 
 /// Bound: non-null labels per symbolic name, octets per label.
 const MAXL: usize = 2;
-const MAXO: usize = 2;
+const MAXO: usize = 1;
 /// Wire length bound of a symbolic name: MAXL * (1 + MAXO) + 1.
 const NB: usize = MAXL * (1 + MAXO) + 1;
-const BUF: usize = 64;
+const BUF: usize = 40;
 /// Upper bound on label starts recorded (header excluded): 3 names * (MAXL + 1).
 const MAXSTARTS: usize = 3 * (MAXL + 1);
 
